@@ -9,11 +9,18 @@ shapes are equal and every element pair is `Close`:
      non-finite:  the same infinity, or NaN on both sides
 No cast is applied in the specification.
 
-* `allclose_sound_partial`   match ∧ NoLossyCast ⇒ Agrees          (all inputs, all tolerances ≥ 0)
-* `allclose_sound_refuted`   the statement without `NoLossyCast` is FALSE  (witnesses replayed
-                             on the real code: int64 = expected + 2³² against int32, float 5.7
-                             against int 5, int 2 against bool True, 1e300 against float32 inf,
-                             (2, inf) pair against complex nan+5j)
+* `allclose_sound_same_dtype` FULL STRENGTH for outputs whose dtype equals the expected dtype (after the
+                             complex repack): match ⇒ Agrees, no hypothesis on the values
+* `allclose_sound_partial`   match ∧ NoLossyCast ⇒ Agrees  (all inputs, all tolerances ≥ 0).  Since fix
+                             61b87cb `NoLossyCast` only says that numpy's own promotion
+                             (`can_cast "safe"` / `result_type`) changes no value
+* `allclose_sound_refuted`   RESIDUAL: without it the statement is still false — numpy promotes 64-bit
+                             integers to float64 (replayed on the real code with rtol = atol = 0:
+                             int64 2⁵³+1 against float64 2⁵³; uint64 2⁶³ against int64 2⁶³−1)
+* `w1_fixed` … `w5_fixed`    regression: the five former witnesses (int64 = expected + 2³² against
+                             int32, float 5.7 against int 5, int 2 against bool True, 1e300 against
+                             float32 inf, (2, inf) pair against complex nan+5j) matched under the
+                             pre-fix decision (`decideAllOld`) and are mismatches now
 * `agreesB_iff`              the executable specification the driver prints is `Agrees`
 * `mismatch_reported_partial` contrapositive form: ¬Agrees ∧ NoLossyCast ⇒ verdict ≠ match
 * `tmp_restores`, `x64_restored_allclose`, `x64_restored_to_onnx`, `x64_history_restored`:
@@ -30,11 +37,11 @@ namespace J2O.C18
 /-! ### the property -/
 
 /-- **Soundness (partial).** For all tolerances ≥ 0, all output lists, all layout flags: if the
-    decision sequence of `_run_allclose` reports a match and the cast it applies to ORT's outputs
-    before comparing changes no value, then the outputs really agree (count, shapes, every
-    element within tolerance, NaN/inf placement).
-    *Partial*: the hypothesis `NoLossyCast` is needed because the code compares
-    `got.astype(expected.dtype)` instead of `got` — see `allclose_sound_refuted`. -/
+    decision sequence of `_run_allclose` reports a match and the promotion of the two operands to
+    one dtype changes no value, then the outputs really agree (count, shapes, every element within
+    tolerance, NaN/inf placement).
+    *Partial*: `NoLossyCast` is still needed because numpy's `can_cast(…, "safe")`/`result_type`
+    send 64-bit integers to float64 — see `allclose_sound_refuted`. -/
 theorem allclose_sound_partial (cfg : Cfg) (hr : 0 ≤ cfg.rtol) (ha : 0 ≤ cfg.atol)
     (es gs : List Tn) (hc : NoLossyCast cfg es gs) (h : decideAll cfg es gs = .isMatch) :
     Agrees cfg es gs := by
@@ -67,63 +74,92 @@ theorem agreesB_iff (cfg : Cfg) (es gs : List Tn) : agreesB cfg es gs = true ↔
   rw [agreesFrom_iff]
   simp
 
-/-! ### the full-strength statement is false on the current code -/
+/-! ### full strength where the dtypes agree -/
+
+/-- **Soundness, full strength, same dtype.** If every output ONNX Runtime returns has the dtype of
+    the expected output (after the complex repack), a match means the outputs agree — no
+    hypothesis on the values. -/
+theorem allclose_sound_same_dtype (cfg : Cfg) (hr : 0 ≤ cfg.rtol) (ha : 0 ≤ cfg.atol)
+    (es gs : List Tn)
+    (hk : ∀ i (h₁ : i < es.length) (h₂ : i < gs.length), (normExact cfg i es[i] gs[i]).kind = es[i].kind)
+    (h : decideAll cfg es gs = .isMatch) : Agrees cfg es gs := by
+  apply allclose_sound_partial cfg hr ha es gs _ h
+  intro i h₁ h₂
+  simp [operands, hk i h₁ h₂]
+
+/-! ### residual: numpy's promotion of 64-bit integers to float64 -/
 
 def dflt : Cfg := ⟨1/1000, 1/100000, []⟩
+def exact0 : Cfg := ⟨0, 0, []⟩
 def i32 : Kind := .int true 32
 def i64 : Kind := .int true 64
+def u64 : Kind := .int false 64
 
-/-- replayed on the real code: expected int32 [5, 7], model output int64 [5 + 2³², 7] → match -/
-def w1e : Tn := ⟨i32, [2], [El.ofRat 5, El.ofRat 7]⟩
-def w1g : Tn := ⟨i64, [2], [El.ofRat (5 + 2 ^ 32), El.ofRat 7]⟩
-/-- expected int32 [5], model output float32 [5.7] → match -/
-def w2e : Tn := ⟨i32, [1], [El.ofRat 5]⟩
-def w2g : Tn := ⟨.flt f32, [1], [El.ofRat (11953767 / 2097152)]⟩   -- float32(5.7)
-/-- expected bool [True], model output int32 [2] → match -/
-def w3e : Tn := ⟨.bool, [1], [El.ofRat 1]⟩
-def w3g : Tn := ⟨i32, [1], [El.ofRat 2]⟩
-/-- expected float32 [inf], model output float64 [1e300] → match -/
-def w4e : Tn := ⟨.flt f32, [1], [⟨.pinf, zero⟩]⟩
-def w4g : Tn := ⟨.flt f64, [1], [El.ofRat (10 ^ 300)]⟩
+/-- replayed on the real code (rtol = atol = 0): expected float64 [2⁵³], model output int64 [2⁵³+1]
+    → match (`np.can_cast(int64, float64, "safe")` is True, the cast rounds) -/
+def r1e : Tn := ⟨.flt f64, [1], [El.ofRat (2 ^ 53)]⟩
+def r1g : Tn := ⟨i64, [1], [El.ofRat (2 ^ 53 + 1)]⟩
+/-- expected int64 [2⁶³−1], model output uint64 [2⁶³] → match (`result_type` is float64) -/
+def r2e : Tn := ⟨i64, [1], [El.ofRat (2 ^ 63 - 1)]⟩
+def r2g : Tn := ⟨u64, [1], [El.ofRat (2 ^ 63)]⟩
 
-/-- expected complex64 [nan+5j], model output float32 [[2, inf]] → match: the repack
-    `re + 1j*im` turns the real part into NaN when the imaginary part is infinite -/
-def w5e : Tn := ⟨.cplx f32, [1], [⟨.nan, .fin 5⟩]⟩
-def w5g : Tn := ⟨.flt f32, [1, 2], [El.ofRat 2, ⟨.pinf, zero⟩]⟩
-
-theorem w1_match : decideAll dflt [w1e] [w1g] = .isMatch ∧ agreesB dflt [w1e] [w1g] = false := by
+theorem r1_match : decideAll exact0 [r1e] [r1g] = .isMatch ∧ agreesB exact0 [r1e] [r1g] = false := by
   decide +kernel
-theorem w2_match : decideAll dflt [w2e] [w2g] = .isMatch ∧ agreesB dflt [w2e] [w2g] = false := by
-  decide +kernel
-theorem w3_match : decideAll dflt [w3e] [w3g] = .isMatch ∧ agreesB dflt [w3e] [w3g] = false := by
-  decide +kernel
-theorem w4_match : decideAll dflt [w4e] [w4g] = .isMatch ∧ agreesB dflt [w4e] [w4g] = false := by
+theorem r2_match : decideAll exact0 [r2e] [r2g] = .isMatch ∧ agreesB exact0 [r2e] [r2g] = false := by
   decide +kernel
 
-theorem w5_match : decideAll dflt [w5e] [w5g] = .isMatch ∧ agreesB dflt [w5e] [w5g] = false := by
-  decide +kernel
-
-/-- **The full-strength soundness statement is refuted** (by the int64→int32 wrap witness; the
-    three other witnesses above refute it as well). -/
+/-- **The unrestricted soundness statement is still refuted** (residual after fix 61b87cb). -/
 theorem allclose_sound_refuted :
     ¬ (∀ (cfg : Cfg) (es gs : List Tn), 0 ≤ cfg.rtol → 0 ≤ cfg.atol →
         decideAll cfg es gs = .isMatch → Agrees cfg es gs) := by
   intro h
-  have hm := h dflt [w1e] [w1g] (by decide +kernel) (by decide +kernel) w1_match.1
-  have := (agreesB_iff dflt [w1e] [w1g]).mpr hm
-  rw [w1_match.2] at this
+  have hm := h exact0 [r1e] [r1g] (by decide +kernel) (by decide +kernel) r1_match.1
+  have := (agreesB_iff exact0 [r1e] [r1g]).mpr hm
+  rw [r1_match.2] at this
   exact absurd this (by simp)
 
--- non-vacuity of `allclose_sound_partial`: a matching pair with a lossless (widening) cast, a
--- just-inside-tolerance pair, and the hypothesis failing exactly on the witnesses
+/-! ### regression: the witnesses of the pre-fix defect (cast of `got` to the expected dtype) -/
+
+/-- expected int32 [5, 7], model output int64 [5 + 2³², 7] -/
+def w1e : Tn := ⟨i32, [2], [El.ofRat 5, El.ofRat 7]⟩
+def w1g : Tn := ⟨i64, [2], [El.ofRat (5 + 2 ^ 32), El.ofRat 7]⟩
+/-- expected int32 [5], model output float32 [5.7] -/
+def w2e : Tn := ⟨i32, [1], [El.ofRat 5]⟩
+def w2g : Tn := ⟨.flt f32, [1], [El.ofRat (11953767 / 2097152)]⟩   -- float32(5.7)
+/-- expected bool [True], model output int32 [2] -/
+def w3e : Tn := ⟨.bool, [1], [El.ofRat 1]⟩
+def w3g : Tn := ⟨i32, [1], [El.ofRat 2]⟩
+/-- expected float32 [inf], model output float64 [1e300] -/
+def w4e : Tn := ⟨.flt f32, [1], [⟨.pinf, zero⟩]⟩
+def w4g : Tn := ⟨.flt f64, [1], [El.ofRat (10 ^ 300)]⟩
+/-- expected complex64 [nan+5j], model output float32 [[2, inf]] -/
+def w5e : Tn := ⟨.cplx f32, [1], [⟨.nan, .fin 5⟩]⟩
+def w5g : Tn := ⟨.flt f32, [1, 2], [El.ofRat 2, ⟨.pinf, zero⟩]⟩
+
+theorem w1_fixed : decideAllOld dflt [w1e] [w1g] = .isMatch ∧ decideAll dflt [w1e] [w1g] = .nonfloat 0 ∧
+    agreesB dflt [w1e] [w1g] = false := by decide +kernel
+theorem w2_fixed : decideAllOld dflt [w2e] [w2g] = .isMatch ∧ decideAll dflt [w2e] [w2g] = .value 0 ∧
+    agreesB dflt [w2e] [w2g] = false := by decide +kernel
+theorem w3_fixed : decideAllOld dflt [w3e] [w3g] = .isMatch ∧ decideAll dflt [w3e] [w3g] = .nonfloat 0 ∧
+    agreesB dflt [w3e] [w3g] = false := by decide +kernel
+theorem w4_fixed : decideAllOld dflt [w4e] [w4g] = .isMatch ∧ decideAll dflt [w4e] [w4g] = .value 0 ∧
+    agreesB dflt [w4e] [w4g] = false := by decide +kernel
+theorem w5_fixed : decideAllOld dflt [w5e] [w5g] = .isMatch ∧ decideAll dflt [w5e] [w5g] = .value 0 ∧
+    agreesB dflt [w5e] [w5g] = false := by decide +kernel
+
+-- non-vacuity of `allclose_sound_partial`: a matching pair with a widening promotion, a
+-- just-outside-tolerance pair; the hypothesis now HOLDS on the old witnesses (the promotion is
+-- exact there) and fails exactly on the residual ones
 example : decideAll dflt [⟨.flt f64, [2], [El.ofRat (1/2), ⟨.nan, zero⟩]⟩]
     [⟨.flt f32, [2], [El.ofRat (1/2 + 1/2048), ⟨.nan, zero⟩]⟩] = .isMatch := by decide +kernel
 example : noLossyB dflt [⟨.flt f64, [2], [El.ofRat (1/2), ⟨.nan, zero⟩]⟩]
     [⟨.flt f32, [2], [El.ofRat (1/2 + 1/2048), ⟨.nan, zero⟩]⟩] = true := by decide +kernel
 example : decideAll dflt [⟨.flt f32, [1], [El.ofRat 1]⟩] [⟨.flt f32, [1], [El.ofRat (1 + 1/512)]⟩]
     = .value 0 := by decide +kernel
-example : noLossyB dflt [w1e] [w1g] = false := by decide +kernel
-example : noLossyB dflt [w2e] [w2g] = false := by decide +kernel
+example : noLossyB dflt [w1e] [w1g] = true ∧ noLossyB dflt [w2e] [w2g] = true ∧
+    noLossyB dflt [w3e] [w3g] = true ∧ noLossyB dflt [w4e] [w4g] = true ∧
+    noLossyB dflt [w5e] [w5g] = true := by decide +kernel
+example : noLossyB exact0 [r1e] [r1g] = false ∧ noLossyB exact0 [r2e] [r2g] = false := by decide +kernel
 
 /-- the executable hypothesis check the driver prints is `NoLossyCast` -/
 theorem noLossyB_iff (cfg : Cfg) (es gs : List Tn) :
